@@ -771,7 +771,13 @@ impl<F: FileSystem + Sync> Server<F> {
                     max_readahead
                 };
 
-                let enabled = capable & want;
+                let mut enabled = capable & want;
+                // The client only looks at `flags2` when the reply carries INIT_EXT. Extended
+                // bits can only be in `capable` if the client offered INIT_EXT itself.
+                #[cfg(target_os = "linux")]
+                if enabled.bits() >> 32 != 0 {
+                    enabled |= FsOptions::INIT_EXT;
+                }
                 let enabled_flags = enabled.bits();
                 let mut out = InitOut {
                     major: KERNEL_VERSION,
